@@ -15,6 +15,7 @@ from hypothesis import strategies as st
 import pyttb as ttb
 
 from .. import gen, ref
+from . import _c02_states as ST
 
 SCALAR_TYPES = (int, float, np.integer, np.floating)
 LETTERS = "abcdefghij"
@@ -61,8 +62,13 @@ def dense_holder(draw, shape, vkind, patterns=PATTERNS):
     pattern = draw(st.sampled_from(list(patterns)))
     out = dict(holder="tensor", shape=list(shape), vkind=vkind, pattern=pattern,
                data=pattern_values(draw, n, pattern, vkind))
-    if vkind == "int" and draw(st.integers(0, 3)) == 0:
-        out["dtype"] = "int64"  # integer-valued data stored with an integer dtype (as in the docstring examples)
+    # integer-valued data stored with an integer dtype (as in the docstring examples); uint8 holds non-negative data
+    dt = ST.draw_dtype(draw, out)
+    if dt is not None:
+        out["dtype"] = dt
+        if dt == "uint8":
+            out["data"] = [abs(v) for v in out["data"]]
+    out["state"] = draw(ST.dense_state(list(shape)))  # how the object comes into being (round 2, class 1)
     return out
 
 
@@ -80,8 +86,12 @@ def sparse_holder(draw, shape, vkind, patterns=SPARSE_PATTERNS):
         entries = [entries[i] for i in p]
     out = dict(holder="sptensor", shape=list(shape), vkind=vkind, pattern=pattern, order=order,
                subs=[e[0] for e in entries], vals=[e[1] for e in entries])
-    if vkind == "int" and draw(st.integers(0, 3)) == 0:
-        out["dtype"] = "int64"
+    dt = ST.draw_dtype(draw, out)
+    if dt is not None:
+        out["dtype"] = dt
+        if dt == "uint8":
+            out["vals"] = [abs(v) for v in out["vals"]]
+    out["state"] = draw(ST.sparse_state(list(shape), len(entries)))
     return out
 
 
@@ -89,6 +99,7 @@ def sparse_holder(draw, shape, vkind, patterns=SPARSE_PATTERNS):
 def kruskal_holder(draw, shape, vkind, max_rank=3):
     c = draw(gen.ktensor_case(kinds=(vkind,), shape=list(shape), max_rank=max_rank))
     c["holder"] = "ktensor"
+    c["state"] = draw(ST.kruskal_state(list(shape), c["rank"]))
     return c
 
 
@@ -103,8 +114,14 @@ def tucker_holder(draw, shape, vkind, sparse_core=None, max_core=3):
         for s, c in zip(shape, cshape)
     ]
     sc = draw(st.booleans()) if sparse_core is None else sparse_core
-    return dict(holder="ttensor", shape=list(shape), cshape=cshape, core=core, factors=factors, vkind=vkind,
-                sparse_core=bool(sc), core_pattern=pattern)
+    out = dict(holder="ttensor", shape=list(shape), cshape=cshape, core=core, factors=factors, vkind=vkind,
+               sparse_core=bool(sc), core_pattern=pattern)
+    if vkind == "int":
+        # integer dtypes for the core and for the factor matrices (mixed with float64 ones)
+        out["cdtype"] = draw(st.sampled_from([None, None, "int64", "int32"]))
+        out["fdtypes"] = [draw(st.sampled_from([None, None, "int64", "int32"])) for _ in shape]
+    out["state"] = draw(ST.tucker_state(out))
+    return out
 
 
 @st.composite
@@ -112,6 +129,53 @@ def sum_holder(draw, shape, vkind, part_kinds=("tensor", "sptensor", "ktensor", 
     k = draw(st.integers(1, 3))
     parts = [draw(holder_with_shape(shape, vkind, draw(st.sampled_from(list(part_kinds))))) for _ in range(k)]
     return dict(holder="sumtensor", shape=list(shape), vkind=vkind, parts=parts)
+
+
+def has_small_dtype(h) -> bool:
+    """does the holder store data in a narrow integer dtype (then the other operand is not given one: products of two
+    narrow-integer arrays wrap around by NumPy's own rules, which is not pyttb's doing)"""
+    if h["holder"] == "sumtensor":
+        return any(has_small_dtype(p) for p in h["parts"])
+    return h.get("dtype") in ST.SMALL_DTYPES or h.get("cdtype") in ST.SMALL_DTYPES
+
+
+def other_vkind(draw, vkind):
+    """value kind of the second operand: mostly the first operand's, sometimes the other one (mixed operands)"""
+    return vkind if draw(st.integers(0, 3)) else ("float" if vkind == "int" else "int")
+
+
+def operand_dtype(draw, vkind, avoid_small=False):
+    """storage spec "<dtype>[@F|@strided]" (or None = float64, C-ordered as NumPy makes it) of a vector / matrix /
+    factor operand holding values of kind ``vkind``.  "@strided" = a view with a step into a bigger buffer (a column
+    of a matrix handed over as a vector, every other row of a table)."""
+    dt = None
+    if vkind == "int":
+        dt = draw(st.sampled_from([None, None, "int64", "int32"] + ([] if avoid_small else ["uint8"])))
+    lay = draw(st.sampled_from(["", "", "", "@F", "@strided"]))
+    return None if dt is None and not lay else (dt or "float64") + lay
+
+
+def operand_values(draw, n, pattern, vkind, avoid_small=False):
+    """(flat values, storage spec or None): values with the zero pattern, made non-negative when stored unsigned"""
+    vals = gen._pattern_values(draw, n, pattern, vkind)
+    dt = operand_dtype(draw, vkind, avoid_small)
+    if dt is not None and dt.startswith("uint8"):
+        vals = [abs(v) for v in vals]
+    return vals, dt
+
+
+def cast(a, dt):
+    """ndarray with the values of ``a`` stored as the spec says"""
+    name, _, lay = (dt or "float64").partition("@")
+    a = np.asarray(a, dtype=float).astype(np.dtype(name))
+    if lay == "F":
+        return np.asfortranarray(a)
+    if lay == "strided" and a.ndim >= 1:
+        big = np.full(tuple(2 * n for n in a.shape), 9, dtype=a.dtype)
+        view = big[tuple(slice(0, 2 * n, 2) for n in a.shape)]
+        view[...] = a
+        return view
+    return a
 
 
 def holder_with_shape(shape, vkind, kind, **kw):
@@ -150,24 +214,52 @@ def holder(draw, tier, kind, min_order=1, max_order=None, shape=None, vkind=None
 
 
 def build(h):
-    """pyttb object of a holder case."""
+    """pyttb object of a holder case, in the state and with the storage dtype the case asks for."""
     k = h["holder"]
     if k == "tensor":
-        if h.get("dtype") == "int64":
-            return ttb.tensor(gen.arr_F(h["shape"], h["data"]).astype(np.int64).copy(order="F"), tuple(h["shape"]))
-        return gen.build_tensor(h)
+        A = gen.arr_F(h["shape"], h["data"]).astype(np.dtype(h.get("dtype") or "float64"))
+        return ST.build_dense(A, h.get("state"))
     if k == "sptensor":
-        if h.get("dtype") == "int64" and h["subs"]:
-            subs = np.array(h["subs"], dtype=int).reshape(len(h["subs"]), len(h["shape"]))
-            return ttb.sptensor(subs, np.array(h["vals"], dtype=np.int64).reshape(-1, 1), tuple(h["shape"]))
-        return gen.build_sptensor(h)
+        return ST.build_sparse(h["subs"], h["vals"], h["shape"], np.dtype(h.get("dtype") or "float64"), h.get("state"),
+                               gen.dense_of_sparse_case(h))
     if k == "ktensor":
-        return gen.build_ktensor(h)
+        w, fm = _kruskal_arrays(h)
+        return ST.build_kruskal(w, fm, h.get("state"))
     if k == "ttensor":
-        return gen.build_ttensor(h)
+        return _build_tucker(h)
     if k == "sumtensor":
         return ttb.sumtensor([build(p) for p in h["parts"]])
     raise ValueError(k)
+
+
+def _build_tucker(h):
+    s = h.get("state") or {}
+    how = s.get("how", "ctor")
+    core, fm = _tucker_arrays(h)
+    cdt = np.dtype(h.get("cdtype") or "float64")
+    fm = [m.astype(np.dtype(d or "float64")) for m, d in zip(fm, h.get("fdtypes") or [None] * len(fm))]
+
+    def make(core, fm, cshape):
+        if h.get("sparse_core"):
+            sc = gen.sparse_case_from_dense(core)
+            c = ST.build_sparse(sc["subs"], sc["vals"], cshape, cdt, s.get("core"), core)
+        else:
+            c = ST.build_dense(core.astype(cdt), s.get("core"))
+        # copy=False hands the core object over as it is (a copying construction re-lays it out)
+        return ttb.ttensor(c, [m.copy() for m in fm], copy=how != "core-nocopy")
+
+    if how == "permute":
+        p = s["perm"]
+        try:
+            T = make(np.transpose(core, p), [fm[i] for i in p], [h["cshape"][i] for i in p]).permute(np.argsort(p))
+            ok = (isinstance(T, ttb.ttensor) and tup(T.shape) == tup(h["shape"])
+                  and np.array_equal(ref.den(T), ref.den_tucker(core, fm)))
+        except Exception:  # noqa: BLE001
+            ok = False
+        ST.note("ttensor-permute", ok)
+        if ok:
+            return T
+    return make(core, fm, h["cshape"])
 
 
 def _tucker_arrays(h):
@@ -207,19 +299,50 @@ def terms(h) -> int:
     if k in ("tensor", "sptensor"):
         return 1
     if k == "ktensor":
-        return h["rank"] * (len(h["shape"]) + 1)
+        # a normalising history re-scales every parameter (two more roundings each)
+        return h["rank"] * (len(h["shape"]) + 1) * (1 if ST.kruskal_state_exact(h.get("state")) else 3)
     if k == "ttensor":
         return ref.prod(h["cshape"]) * (len(h["shape"]) + 1)
     return sum(terms(p) for p in h["parts"])
 
 
-def intvalued(h) -> bool:
-    return h["vkind"] == "int"
+def intvalued(*hs) -> bool:
+    """integer-valued parameters all the way (then results are compared exactly): integer-valued case data, and a
+    history that keeps them so (normalising a Kruskal tensor does not)."""
+    for h in hs:
+        if h["vkind"] != "int":
+            return False
+        if h["holder"] == "ktensor" and not ST.kruskal_state_exact(h.get("state")):
+            return False
+        if h["holder"] == "sumtensor" and not intvalued(*h["parts"]):
+            return False
+    return True
+
+
+def state_label(h) -> List[str]:
+    s = h.get("state") or {}
+    out = ["state-" + h["holder"] + "-" + s.get("how", "ctor")]
+    if h["holder"] == "ttensor" and s.get("core"):
+        out.append("state-core-" + s["core"].get("how", "ctor"))
+    if s.get("npshape"):
+        out.append("state-numpy-int-shape")
+    return out
+
+
+def object_labels(*objs) -> List[str]:
+    """labels of the objects actually built (layout, shape entry types, stored zeros, dtypes) and of the histories
+    that were achieved or fell back to the constructor since the last call"""
+    out = []
+    for X in objs:
+        out += ST.object_labels(X)
+    out += sorted(set(ST.BUILD_NOTES))
+    del ST.BUILD_NOTES[:]
+    return out
 
 
 def holder_labels(h) -> List[str]:
     k = h["holder"]
-    out = [k]
+    out = [k] + state_label(h)
     if k == "sptensor":
         out += ["nnz0" if not h["subs"] else ("nnz1" if len(h["subs"]) == 1 else "nnz>1"), "stored-" + h["order"]]
     if k == "tensor":
@@ -228,6 +351,9 @@ def holder_labels(h) -> List[str]:
         out.append("dtype-" + h.get("dtype", "float64"))
     if k == "ttensor":
         out.append("sparse-core" if h["sparse_core"] else "dense-core")
+        out.append("core-dtype-" + (h.get("cdtype") or "float64"))
+        if any(h.get("fdtypes") or []):
+            out.append("factors-int-dtype")
     if k == "ktensor":
         out.append("unit-weights" if all(w == 1.0 for w in h["weights"]) else "non-unit-weights")
     if k == "sumtensor":
@@ -288,6 +414,49 @@ def fixed_holder(kind, shape, salt=0):
                     parts=[fixed_holder("tensor", shape, salt + 1), fixed_holder("sptensor-thin", shape, salt + 2),
                            fixed_holder("ktensor", shape, salt + 3)])
     raise ValueError(kind)
+
+
+def fixed_state(h, i):
+    """The fixed holder ``h`` in the i-th of a fixed cycle of derived states and storage dtypes (enumerated cells)."""
+    h = dict(h)
+    k, shape, N = h["holder"], h["shape"], len(h["shape"])
+    rot = [(j + i) % N for j in range(N)]
+    if k == "tensor":
+        cyc = [dict(how="ctor"), dict(how="grown", mode=max(range(N), key=lambda m: (shape[m] >= 2, -m)) if any(
+            n >= 2 for n in shape) else None, form="subs"), dict(how="permute", perm=rot, k=0),
+            dict(how="grown", mode=next((m for m in range(N) if shape[m] >= 2), None), form="slab"),
+            dict(how="tenmat", perm=rot, k=i % (N + 1)), dict(how="slice"), dict(how="arith", op="plus0")]
+        h["state"] = cyc[i % len(cyc)]
+        if (i // len(cyc)) % 2:
+            h["dtype"] = "int64"
+    elif k == "sptensor":
+        n = ref.prod(shape)
+        extra = [(3 * i + 1) % max(n, 1), (5 * i + 2) % max(n, 1), (7 * i) % max(n, 1)]
+        extra = list(dict.fromkeys(extra))
+        at = [0, len(h["subs"]), 1][:len(extra)]
+        cyc = [dict(how="ctor"), dict(how="zeros-ctor", extra=extra, at=at), dict(how="npshape"),
+               dict(how="zeros-scale", extra=extra, at=at), dict(how="permute", perm=rot),
+               dict(how="zeros-times0", extra=extra, at=at, npshape=True),
+               dict(how="grown", mode=next((m for m in range(N) if shape[m] >= 2), None))]
+        h["state"] = cyc[i % len(cyc)]
+        if (i // len(cyc)) % 2:
+            h["dtype"] = "int64"
+    elif k == "ktensor":
+        r = h["rank"]
+        cyc = [dict(how="ctor"), dict(how="normalize-k", mode=i % N), dict(how="arrange", perm=list(range(r))[::-1]),
+               dict(how="sum", cut=1 if r >= 2 else None), dict(how="normalize"), dict(how="redistribute", mode=i % N)]
+        h["state"] = cyc[i % len(cyc)]
+    elif k == "ttensor":
+        core = fixed_state(dict(holder="sptensor" if h["sparse_core"] else "tensor", shape=h["cshape"],
+                                subs=[0] * sum(1 for v in h["core"] if v != 0)), i)
+        cyc = ["ctor", "core-nocopy", "permute", "core-nocopy"]
+        h["state"] = dict(how=cyc[i % len(cyc)], core=core["state"], perm=rot)
+        if (i // len(cyc)) % 2:
+            h["cdtype"] = "int64"
+            h["fdtypes"] = ["int64" if (m + i) % 2 else None for m in range(N)]
+    elif k == "sumtensor":
+        h["parts"] = [fixed_state(p, i + j) for j, p in enumerate(h["parts"])]
+    return h
 
 
 def fixed_vector(n, salt):
